@@ -14,6 +14,7 @@ Next ==
   \/ \E o \in U : Rename(o, "z")
   \/ \E m \in 1..MaxModels : Pop(m)
   \/ \E m \in 1..MaxModels : CopyModel(m)
+  \/ \E m \in 1..MaxModels : DropModel(m)
   \/ \E m \in 1..MaxModels, x \in Atoms : AssignIn(m, 1, x)
 \* a rejected operation leaves everything but `rej` (and, for a rejected build, the
 \* filled-in names) unchanged
